@@ -15,8 +15,10 @@ Record SI (s : sp) : Prop := {
   SI_nodup : NoDup (map eid (spend s))
 }.
 
-Lemma SI_new : SI sp_new.
+Lemma SI_new_at ts : SI (sp_new_at ts).
 Proof. constructor; cbn; try constructor; intros e []. Qed.
+Lemma SI_new : SI sp_new.
+Proof. apply SI_new_at. Qed.
 
 Lemma nodup_mid {A} (l1 l2 : list A) x : NoDup (l1 ++ l2) -> ~ In x (l1 ++ l2) -> NoDup (l1 ++ x :: l2).
 Proof.
@@ -111,10 +113,11 @@ Qed.
 
 Lemma SI_step a o : SI (ss a) -> SI (ss (fst (sp_step a o))).
 Proof.
-  intros HS. destruct o as [t p|k| | |]; cbn [sp_step].
+  intros HS. destruct o as [t p|k| | | |]; cbn [sp_step].
   - pose proof (SI_add (ss a) t p HS) as H. destruct (sp_add (ss a) t p) as [[s' h] x]. exact H.
   - destruct (pick_handle (shandles a) k) as [[t i]|]; [apply SI_cancel|]; exact HS.
   - pose proof (SI_fetch (ss a) HS) as H. destruct (sp_fetch (ss a)) as [s' x]. exact H.
+  - exact HS.
   - exact HS.
   - exact HS.
 Qed.
@@ -129,7 +132,7 @@ Fixpoint fetched_times (outs : list out) : list N :=
 
 Lemma tcur_step_mono a o : SI (ss a) -> s_tcur (ss a) <= s_tcur (ss (fst (sp_step a o))).
 Proof.
-  intros [Hs Hz Hr Hi Hn]. destruct o as [t p|k| | |]; cbn [sp_step]; try (cbn [fst]; lia).
+  intros [Hs Hz Hr Hi Hn]. destruct o as [t p|k| | | |]; cbn [sp_step]; try (cbn [fst]; lia).
   - unfold sp_add. destruct (t <? s_tcur (ss a)); [cbn; lia|]. destruct (t =? s_tcur (ss a)); cbn; lia.
   - destruct (pick_handle (shandles a) k) as [[t i]|]; [|cbn [fst]; lia]. cbn [fst ss]. unfold sp_cancel.
     destruct (remove_id i (s_zero (ss a))); [cbn; lia|]. destruct (remove_id i (s_rest (ss a))); cbn; lia.
@@ -145,7 +148,7 @@ Proof.
   induction ops as [|o ops IH]; intros a HS; cbn [sp_run_from]; [split; constructor|].
   pose proof (SI_step a o HS) as HS'. pose proof (tcur_step_mono a o HS) as Hm.
   assert (Hout : forall p t, snd (sp_step a o) = OFetched p t -> s_tcur (ss (fst (sp_step a o))) = t /\ s_tcur (ss a) <= t).
-  { intros p t E. destruct o as [t' p'|k| | |]; cbn [sp_step] in *.
+  { intros p t E. destruct o as [t' p'|k| | | |]; cbn [sp_step] in *.
     - unfold sp_add in E. destruct (t' <? s_tcur (ss a)); [discriminate|]. destruct (t' =? s_tcur (ss a)); discriminate.
     - destruct (pick_handle (shandles a) k) as [[? ?]|]; discriminate.
     - destruct HS as [Hs Hz Hr Hi Hn]. unfold sp_fetch in *. destruct (s_zero (ss a)) as [|x z] eqn:Ez.
@@ -153,7 +156,8 @@ Proof.
         split; [reflexivity|]. apply Hr. left; reflexivity.
       + cbn in *. injection E as _ <-. rewrite (Hz x (or_introl eq_refl)). split; [reflexivity|lia].
     - discriminate.
-    - discriminate. }
+    - discriminate.
+    - cbn in E. unfold sp_peek in E. destruct (s_zero (ss a)); [destruct (s_rest (ss a))|]; discriminate. }
   destruct (sp_step a o) as [a' x]. cbn [fst snd] in *. specialize (IH a' HS').
   destruct (sp_run_from a' ops) as [a'' xs]. cbn [snd] in *. destruct IH as [Hall Hsort].
   assert (Hall' : Forall (fun t => s_tcur (ss a) <= t) (fetched_times xs)).
@@ -164,8 +168,11 @@ Proof.
   - constructor; [exact Hsort|]. rewrite <- E. exact Hall.
 Qed.
 
+Theorem fetch_nondecreasing_at ts ops : StronglySorted N.le (fetched_times (sp_run_ops_at ts ops)).
+Proof. apply (fetched_lower_bound ops (sp_init_at ts)). apply SI_new_at. Qed.
+
 Theorem fetch_nondecreasing ops : StronglySorted N.le (fetched_times (sp_run_ops ops)).
-Proof. apply (fetched_lower_bound ops sp_init). apply SI_new. Qed.
+Proof. apply fetch_nondecreasing_at. Qed.
 
 (* ---- (b) exactly-once accounting, with a ghost record of what happened ---- *)
 Record ghost := { g_added : list ev; g_fetched : list ev; g_cancelled : list ev }.
@@ -228,7 +235,7 @@ Proof. induction l1 as [|x l1 IH]; cbn [app find_id]; [reflexivity|]. destruct (
 
 Lemma Acct_step a g o : SI (ss a) -> Acct a g -> Acct (fst (sp_step a o)) (ghost_step a g o).
 Proof.
-  intros HS [P [Hn Hi]]. destruct o as [t p|k| | |]; cbn [sp_step ghost_step]; try (repeat split; assumption).
+  intros HS [P [Hn Hi]]. destruct o as [t p|k| | | |]; cbn [sp_step ghost_step]; try (repeat split; assumption).
   - (* add *)
     unfold sp_add. destruct (t <? s_tcur (ss a)) eqn:E1; cbn [fst ss]; [repeat split; assumption|].
     set (e := {| etime := t; eid := s_next (ss a); epay := p |}).
@@ -280,18 +287,20 @@ Proof.
   apply IH; [apply SI_step; exact HS|apply Acct_step; assumption].
 Qed.
 
-Lemma Acct_init : Acct sp_init g0.
+Lemma Acct_init_at ts : Acct (sp_init_at ts) g0.
 Proof. repeat split; cbn; try constructor. intros e []. Qed.
+Lemma Acct_init : Acct sp_init g0.
+Proof. apply Acct_init_at. Qed.
 
 (* every event ever added is, at any point of any history, in exactly one of:
    fetched, cancelled while pending, still pending *)
-Theorem exactly_once ops :
-  let a := fst (ghost_run sp_init g0 ops) in
-  let g := snd (ghost_run sp_init g0 ops) in
+Theorem exactly_once ts ops :
+  let a := fst (ghost_run (sp_init_at ts) g0 ops) in
+  let g := snd (ghost_run (sp_init_at ts) g0 ops) in
   Permutation (g_added g) (g_fetched g ++ g_cancelled g ++ spend (ss a)) /\
   NoDup (map eid (g_fetched g ++ g_cancelled g ++ spend (ss a))).
 Proof.
-  cbn zeta. destruct (Acct_run ops sp_init g0 SI_new Acct_init) as [[P [Hn _]] _]. split; [exact P|].
+  cbn zeta. destruct (Acct_run ops (sp_init_at ts) g0 (SI_new_at ts) (Acct_init_at ts)) as [[P [Hn _]] _]. split; [exact P|].
   eapply Permutation_NoDup; [apply Permutation_map; exact P|exact Hn].
 Qed.
 
@@ -314,7 +323,7 @@ Proof.
   - specialize (IH (fst (sp_step a o)) (ghost_step a g o)). destruct IH as [IH1 IH2].
     destruct (sp_step a o) as [a' x] eqn:Es. cbn [fst] in *.
     destruct (sp_run_from a' ops) as [a'' xs] eqn:Er. cbn [fst snd] in *. split; [|exact IH2].
-    rewrite IH1. destruct o as [t p|k| | |]; cbn [sp_step ghost_step] in *.
+    rewrite IH1. destruct o as [t p|k| | | |]; cbn [sp_step ghost_step] in *.
     + unfold sp_add in Es. destruct (t <? s_tcur (ss a)); [injection Es as <- <-; reflexivity|].
       destruct (t =? s_tcur (ss a)); injection Es as <- <-; reflexivity.
     + destruct (pick_handle (shandles a) k) as [[? i]|]; [|injection Es as <- <-; reflexivity].
@@ -325,19 +334,20 @@ Proof.
       * injection Es as <- <-. cbn [g_fetched fetched_outs]. rewrite map_app, <- app_assoc. reflexivity.
     + injection Es as <- <-. reflexivity.
     + injection Es as <- <-. reflexivity.
+    + injection Es as <- <-. unfold sp_peek. destruct (s_zero (ss a)); [destruct (s_rest (ss a))|]; reflexivity.
 Qed.
 
-Theorem fetched_are_ghost ops :
-  fetched_outs (sp_run_ops ops) = map (fun x => (epay x, etime x)) (g_fetched (snd (ghost_run sp_init g0 ops))).
-Proof. destruct (ghost_outputs ops sp_init g0) as [H _]. rewrite H. reflexivity. Qed.
+Theorem fetched_are_ghost ts ops :
+  fetched_outs (sp_run_ops_at ts ops) = map (fun x => (epay x, etime x)) (g_fetched (snd (ghost_run (sp_init_at ts) g0 ops))).
+Proof. destruct (ghost_outputs ops (sp_init_at ts) g0) as [H _]. unfold sp_run_ops_at. rewrite H. reflexivity. Qed.
 
 (* (c) the reported length is scheduled - cancelled - fetched *)
-Theorem len_formula ops :
-  let a := fst (ghost_run sp_init g0 ops) in
-  let g := snd (ghost_run sp_init g0 ops) in
+Theorem len_formula ts ops :
+  let a := fst (ghost_run (sp_init_at ts) g0 ops) in
+  let g := snd (ghost_run (sp_init_at ts) g0 ops) in
   (N.to_nat (sp_len (ss a)) + length (g_cancelled g) + length (g_fetched g) = length (g_added g))%nat.
 Proof.
-  cbn zeta. destruct (exactly_once ops) as [P _]. apply Permutation_length in P.
+  cbn zeta. destruct (exactly_once ts ops) as [P _]. apply Permutation_length in P.
   rewrite !app_length in P. unfold sp_len. rewrite Nat2N.id. unfold spend in P. rewrite app_length in P. lia.
 Qed.
 
@@ -364,22 +374,22 @@ Proof.
   rewrite N1, N2. reflexivity.
 Qed.
 
-Theorem cancel_after_fetch_noop ops e :
-  let a := fst (ghost_run sp_init g0 ops) in
-  let g := snd (ghost_run sp_init g0 ops) in
+Theorem cancel_after_fetch_noop ts ops e :
+  let a := fst (ghost_run (sp_init_at ts) g0 ops) in
+  let g := snd (ghost_run (sp_init_at ts) g0 ops) in
   In e (g_fetched g) -> sp_cancel (ss a) (eid e) = ss a.
 Proof.
-  cbn zeta. intros Hin. destruct (Acct_run ops sp_init g0 SI_new Acct_init) as [HA _].
+  cbn zeta. intros Hin. destruct (Acct_run ops (sp_init_at ts) g0 (SI_new_at ts) (Acct_init_at ts)) as [HA _].
   eapply cancel_not_pending_noop; [exact HA|apply HA|apply in_or_app; left; exact Hin].
 Qed.
 
 (* a pending event that is cancelled leaves the pending set for good: it is
    recorded as cancelled, and by exactly_once it can never also be fetched *)
-Theorem cancelled_never_returned ops e :
-  let g := snd (ghost_run sp_init g0 ops) in
+Theorem cancelled_never_returned ts ops e :
+  let g := snd (ghost_run (sp_init_at ts) g0 ops) in
   In e (g_cancelled g) -> ~ In e (g_fetched g).
 Proof.
-  cbn zeta. intros Hc Hf. destruct (exactly_once ops) as [_ Hn].
+  cbn zeta. intros Hc Hf. destruct (exactly_once ts ops) as [_ Hn].
   rewrite map_app in Hn. apply in_split in Hf. destruct Hf as [l1 [l2 Ef]]. rewrite Ef in Hn.
   rewrite map_app in Hn. cbn [map] in Hn. rewrite <- app_assoc in Hn. cbn [app] in Hn.
   apply NoDup_remove_2 in Hn. apply Hn. apply in_or_app. right. apply in_or_app. right.
